@@ -877,3 +877,9 @@ M('c07l-d37-request-clock-not-started', 'C07', 'break', TX,
 M('c07l-response-clock-started-after-the-call', 'C07', 'break', TX,
   '            gettimeofday(&tx->connp->out_decompressor->time_before, NULL);\n            // Send data buffer to the decompressor.\n            tx->connp->out_decompressor->nb_callbacks=0;\n            htp_gzip_decompressor_decompress(tx->connp->out_decompressor, &d);\n',
   '            // Send data buffer to the decompressor.\n            tx->connp->out_decompressor->nb_callbacks=0;\n            htp_gzip_decompressor_decompress(tx->connp->out_decompressor, &d);\n            gettimeofday(&tx->connp->out_decompressor->time_before, NULL);\n', 'C07.l')
+
+# ---------------- C12.i NUL termination (D38)
+M('c12i-d38-u-encoded-nul-does-not-terminate', 'C12', 'break', 'htp/htp_util.c',
+  '                                    if (cfg->decoder_cfgs[HTP_DECODER_URL_PATH].nul_encoded_terminates) {\n                                        bstr_adjust_len(path, wpos);\n                                        return HTP_OK;\n                                    }\n', '', 'C12.i')
+M('c12i-raw-nul-terminate-test-dropped', 'C12', 'break', 'htp/htp_util.c',
+  '                if (cfg->decoder_cfgs[HTP_DECODER_URL_PATH].nul_raw_terminates) {', '                if (0) {', 'C12.i')
